@@ -1835,6 +1835,10 @@ class Process:
     @wrap_exceptions
     def terminal(self):
         tty_nr = int(self._parse_stat_file()['ttynr'])
+        # The kernel keeps the encoded device number in an "int" and
+        # prints it with %d: numbers with bit 31 set (a pts minor
+        # >= 2**19) show up negative, st_rdev does not.
+        tty_nr &= 0xFFFFFFFF
         tmap = _psposix.get_terminal_map()
         try:
             return tmap[tty_nr]
